@@ -101,12 +101,18 @@ def _root_inv(hashes, hash_f, old_hashes):
 # ---------------------------------------------------------------- block header
 def _mk_block(v):
     b = Block(v['version'], v['previous_block_hash'], v['merkle_root'], v['timestamp'], v['difficulty'], v['nonce'])
+    for k_ in ('_hash', '_Block__hash'):
+        if v.get(k_) is not None:
+            setattr(b, k_, v[k_])
     return b
 
 
 U32 = Int(0, 2 ** 32 - 1, interesting=[0, 1, 2 ** 31, 2 ** 32 - 1])
 BLOCK = Obj(Block, dict(version=U32, previous_block_hash=Bytes(n=32), merkle_root=Bytes(n=32), timestamp=U32, difficulty=U32, nonce=U32,
                         txs=Const(())), make=_mk_block)
+# a header object with an arbitrary history: whatever an earlier call may have left in a cache attribute
+BLOCK_USED = Obj(Block, dict(version=U32, previous_block_hash=Bytes(n=32), merkle_root=Bytes(n=32), timestamp=U32, difficulty=U32, nonce=U32,
+                             txs=Const(()), _hash=Bytes(n=32), _Block__hash=Bytes(n=32)), make=_mk_block)
 
 
 def header_bytes(b):
@@ -151,3 +157,16 @@ class parse_as_header:
         return (fpos(f) == old(fpos(f)) + 80, fdata(f) == old(fdata(f)), d == header_bytes(result))
 
     raises = [(Exception, _short, True)]
+
+
+@contract("pycoin.block:Block.hash")
+class block_hash:
+    """the block hash is the double SHA-256 of the header's *current* fields, whatever earlier calls left on the object
+    (the builder gives the cache-like attributes arbitrary contents)"""
+    props = ["C14"]
+    sig = dict(self=BLOCK_USED)
+    returns = Bytes()
+    assigns = ["self!"]
+
+    def ensures_current_header(self, result):
+        return (result == dsha256(header_bytes(self)), header_bytes(self) == old(header_bytes(self)))
